@@ -215,8 +215,11 @@ def check_common(c, net, A, directed, D):
     Du = S.bfs_distances(S.symmetrised(A)) if directed else D
     c.cmp("diameter/undirected-paths", lambda: net.diameter(directed=False), S.diameter(Du), nontrivial=far)
     # documented: "If False and the network is unconnected, the number of all nodes is returned."
-    c.cmp("diameter/unconnected-returns-N", lambda: net.diameter(only_connected=False),
-          S.diameter(D) if S.is_connected(D) else n, nontrivial=not S.is_connected(D))
+    if S.is_connected(D):
+        c.cmp("diameter/only_connected-false-on-connected", lambda: net.diameter(only_connected=False),
+              S.diameter(D), nontrivial=far)
+    else:
+        c.cmp("diameter/unconnected-returns-N", lambda: net.diameter(only_connected=False), n, nontrivial=True)
     c.cmp("global_efficiency/costa", net.global_efficiency, S.global_efficiency(D))
     c.cmp("local_vulnerability/costa", net.local_vulnerability, S.local_vulnerability(A))
     cl = S.closeness(D)
@@ -738,7 +741,7 @@ def main():
             "is non-trivial when the oracle value has a non-zero entry; additionally path based clauses need a pair of "
             "nodes at distance >= 2 (weighted: a distance that differs from hop count x minimal weight), clustering "
             "clauses need a triangle, cliquishness order 4/5 a node of degree >= 3/4, centrality vectors must not be "
-            "constant, 'diameter/unconnected-returns-N' needs a disconnected graph.")
+            "constant.")
     rep = Report(PROP, args, scope, rule)
     for s in SKIPPED:
         rep.skip(s)
